@@ -422,3 +422,14 @@ def guarded(rec: Recorder, monitor: str, fn, *a, **k):
     except Exception:
         rec.inconclusive(f"harness error in {monitor}: {traceback.format_exc()[-800:]}")
         return None
+
+
+def interleave(*lists):
+    """merge work lists proportionally, so that an exhausted time budget cuts every phase alike instead of starving the last one"""
+    tagged = []
+    for li, l in enumerate(lists):
+        n = len(l)
+        for i, item in enumerate(l):
+            tagged.append(((i + 0.5) / max(n, 1), li, item))
+    tagged.sort(key=lambda t: (t[0], t[1]))
+    return [t[2] for t in tagged]
